@@ -272,5 +272,37 @@ def replay_position(ctx, p):
     return len(rr) != 1, {'wgsl': s2, 'real': rr}
 
 
+def native(ctx):
+    done = False
+    shapes = [('f32', 4), ('vec2<f32>', 8), ('vec3<f32>', 12), ('vec4<f32>', 16), ('vec3<u32>', 12), ('mat4x4<f32>', 64), ('mat3x3<f32>', 48), ('mat2x3<f32>', 32),
+              ('array<vec4<f32>, 3>', 48), ('array<f32, 5>', 20)]
+    structs = [('struct P { m: mat4x4<f32>, s: f32 }', 80), ('struct I { uv: vec2<f32>, w: f32 }\nstruct P { a: f32, inner: I }', 24),
+               ('struct P { a: vec3<f32>, b: f32, c: vec3<f32> }', 32), ('struct P { a: f32 }', 4)]
+    for t, want in shapes:
+        s2 = f'var<push_constant> pc: {t};\n@fragment fn f() {{}}\n'
+        kind2, toks2, _ = ctx.gen_tokens(s2, {})
+        rr = decode_layout(toks2)[0] if kind2 == 'ok' else None
+        if rr != [{'stages': 'PUSH_CONSTANT_STAGES', 'start': 0, 'end': want}]:
+            if not done:
+                done = True
+                ctx.report('C13/native', f'push constant {t}: ranges {rr}, WGSL size {want}', {'wgsl': s2}, True)
+        else:
+            ctx.replayed_ok += 1
+    for decl, want in structs:
+        s2 = f'{decl}\nvar<push_constant> pc: P;\n@fragment fn f() {{}}\n'
+        kind2, toks2, _ = ctx.gen_tokens(s2, {})
+        rr = decode_layout(toks2)[0] if kind2 == 'ok' else None
+        if rr != [{'stages': 'PUSH_CONSTANT_STAGES', 'start': 0, 'end': want}]:
+            if not done:
+                done = True
+                ctx.report('C13/native', f'push constant struct: ranges {rr}, WGSL size {want}', {'wgsl': s2}, True)
+        else:
+            ctx.replayed_ok += 1
+    for p in range(3):
+        rep, det = replay_position(ctx, p)
+        if rep and not done:
+            done = True
+            ctx.report('C13/native', f'push constant at position {p}: {det}', det, True, det)
+
 if __name__ == '__main__':
-    sys.exit(main('C13', run))
+    sys.exit(main('C13', run, native))
